@@ -196,6 +196,8 @@ def run(case: dict, ctx) -> dict:
         tag=rng.getrandbits(48), seqs=rng.choice([(5, 9), (9, 5), (1, 2), (2**40, 3)]), stale=rng.choice(["valid", "valid", "zero"]),
         meta_item_order=rng.choice([None, "shuffle", "rev"]), item_gap=rng.choice([0, 0, 8, 4096]),
         leave_alloc=rng.random() < 0.4, items_at_region_end=rng.random() < 0.25,
+        locator=w.parent_locator([("parent_linkage", "{83ed0ec1-24c8-49a6-a959-5e4bd1288015}"), ("relative_path", ".\\former parent.vhdx"),
+                                  ("absolute_win32_path", "C:\\vm\\former parent.vhdx")], rng=rng) if rng.random() < 0.15 else None,
         # regions and metadata items of unknown type that are not marked required: a reader skips them
         extra_regions=[(bytes(rng.randrange(256) for _ in range(16)), 0) for _ in range(rng.choice([0, 0, 0, 1, 2]))],
         extra_items=[(bytes(rng.randrange(256) for _ in range(16)), bytes(rng.randrange(256) for _ in range(rng.randrange(1, 200))), rng.choice([0, 1, 2, 3]))
